@@ -70,13 +70,15 @@ async def make_maildir(base, layout='++', users=(('alice', 'pwalice', ()), ('bob
     cfg = Config(args, host=None, port=143, base_dir=base, layout=layout, colon=None, **kw)
     cfg.apply_context()
     login = Login(cfg)
-    for name, password, roles in users:
+    for name, password, roles, *home in users:
+        # an optional fourth element: the home directory of the account, relative to the base directory (default: the account name)
         ident = Identity(cfg, login.tokens, name, None, {'admin'})
         try:
             await ident.get()
         except Exception:
             pw = await Passwords(cfg).hash_password(password) if password is not None else None
-            await ident.set(UserMetadata(cfg, name, password=pw, roles=frozenset(roles)))
+            extra = dict(params={'mailbox_path': home[0]}) if home else {}
+            await ident.set(UserMetadata(cfg, name, password=pw, roles=frozenset(roles), **extra))
     return cfg, login
 
 
